@@ -338,6 +338,13 @@ theorem walk_ser (s : NvStore) (hwf : WFParts s) (post pre : List Entry) (hE : s
         = (owners [] (pre ++ [e]) 0).map (expectNVar s.pol s.guids) := by
       rw [owners_append, owners_single]; simp
     rw [e1, e3, e4, e2]
+    -- the repaired overlap guard (fixes/C04-nvar-table-overlap.diff) never fires: entries, free space
+    -- and GUID table partition the store
+    have hng : ¬ (s.ser.length - 16 * maxIdx (pre ++ [e]) < entriesLen (pre ++ [e])) := by
+      have h1 : maxIdx (pre ++ [e]) ≤ s.guids.length := by rw [← e2]; omega
+      have h2 : entriesLen (pre ++ [e]) = entriesLen pre + e.size := by simp [entriesLen]
+      omega
+    rw [if_neg hng]
     exact ih (pre ++ [e]) (by rw [hE]; simp) f (by simp at hfuel ⊢; omega)
 
 /-- parse ∘ ser on the reference grammar -/
